@@ -48,11 +48,10 @@ What these theorems do and do not say (reader's guide):
   Parameter (`C.param.x.bounds = …`, not re-validated by param) or a class-level value assignment
   are not operations of this model, so the invariant is about creation histories.
 
-One clause of the statement is FALSE of the code as it is and is refuted below
-from a concrete witness (replayed on the implementation by the harness): `names`
-of a dict-declared Selector is not inherited.  (A failed `add_parameter` used to
-leave the invalid Parameter installed; repaired in /repo 9350ff5, and the model
-follows the repaired code: `failed_add_parameter_changes_nothing`.)
+Nothing of the statement is refuted on the current tree.  Two clauses used to be false and were
+repaired in /repo; the model follows the repaired code: a failed `add_parameter` left the invalid
+Parameter installed (9350ff5; `failed_add_parameter_changes_nothing`), and `names` of a
+dict-declared Selector was not inherited with `objects` (4c8b6fe; `names_inherited_with_objects`).
 -/
 import ParamVerif.Store.InheritLemmas
 
@@ -131,7 +130,7 @@ theorem declared_attribute_resolution (rx : String → String → Bool) (op op' 
            match typeDefault d.ptype s with
            | .static v => some v.v
            | _ => none) := by
-  obtain ⟨hpt, hsl, _⟩ := construct_shape rx op' name d own hc
+  obtain ⟨hpt, hsl⟩ := construct_shape rx op' name d own hc
   have hn : s ≠ .names := by
     intro e; subst e
     have := hasSlot_names hs
@@ -331,13 +330,13 @@ A None default under an unchanged type is never re-checked. -/
 theorem creation_fails_iff (rx : String → String → Bool) (op name : Nat) (own : Param)
     (supers : List (Option Param))
     (hown : OwnValid rx own) (hsup : ∀ h, some h ∈ supers → Good rx h)
-    (hsupp : (inherit rx op name own supers).outcome ≠ .unsupported)
-    (hkey : (inherit rx op name own supers).outcome ≠ .keyError) :
+    (hsupp : (inherit rx op name own supers).outcome ≠ .unsupported) :
     (inherit rx op name own supers).outcome ≠ .ok ↔
       ((inherit rx op name own supers).outcome = .callableError ∨
        ((typeChange own.ptype supers = true ∨
            (inherit rx op name own supers).param.cfg .default ≠ some (.atom .pyNone)) ∧
          Sat rx own.ptype (inherit rx op name own supers).param.cfg = false)) := by
+  have hkey := inherit_not_keyError rx op name own supers
   constructor
   · intro hne
     cases ho : (inherit rx op name own supers).outcome with
@@ -390,9 +389,9 @@ theorem creation_fails_iff_spec (rx : String → String → Bool) (op name : Nat
     (supers : List (Option Param))
     (hown : OwnValid rx own) (hsup : ∀ h, some h ∈ supers → Good rx h)
     (hsupp : (inherit rx op name own supers).outcome ≠ .unsupported)
-    (hkey : (inherit rx op name own supers).outcome ≠ .keyError)
     (hcos : own.ptype = .selector → ∃ b, specCheckOnSet own supers = some (.atom (.bool b))) :
     (inherit rx op name own supers).outcome ≠ .ok ↔ shouldFail rx own supers = true := by
+  have hkey := inherit_not_keyError rx op name own supers
   by_cases hce : (inherit rx op name own supers).outcome = .callableError
   · have := callableError_not_computable rx op name own supers hce
     simp [shouldFail, this, hce]
@@ -424,7 +423,7 @@ theorem creation_fails_iff_spec (rx : String → String → Bool) (op name : Nat
       rw [he] at this
       unfold specDefault
       rw [← this]; rfl
-    rw [creation_fails_iff rx op name own supers hown hsup hsupp hkey]
+    rw [creation_fails_iff rx op name own supers hown hsup hsupp]
     simp only [hce, false_or, shouldFail, hcomp, Bool.not_true, Bool.false_or, Bool.and_eq_true, Bool.or_eq_true,
       Bool.not_eq_true', hsat, hsd, hdef, specTypeChanged]
     have h3 : some d.v ≠ some (.atom .pyNone) ↔ d.v.isNone = false := by
@@ -437,7 +436,8 @@ theorem creation_fails_iff_spec (rx : String → String → Bool) (op name : Nat
 `reachable_inv` the world left by *any* history — merging a
 declaration whose constructor succeeded fails exactly when the declarative specification says so.
 The side conditions of `creation_fails_iff_spec` are discharged: `OwnValid` by
-`construct_ownValid`, valid ancestors by the invariant of `run`, KeyError by `construct_shape`.
+`construct_ownValid`, valid ancestors by the invariant of `run` (and the KeyError branch is never
+taken: `inherit_not_keyError`).
 What remains is the scope of the model (`≠ unsupported`, a boolean `check_on_set`). -/
 theorem reachable_inv (rx : String → String → Bool) (ops : List Op) :
     (run rx ops 0 World.empty []).1.Inv rx :=
@@ -449,10 +449,8 @@ theorem merge_fails_iff_reachable (rx : String → String → Bool) (w : World) 
     (hsupp : (inherit rx op name own (w.supers tail name)).outcome ≠ .unsupported)
     (hcos : own.ptype = .selector → ∃ b, specCheckOnSet own (w.supers tail name) = some (.atom (.bool b))) :
     (inherit rx op name own (w.supers tail name)).outcome ≠ .ok ↔ shouldFail rx own (w.supers tail name) = true := by
-  obtain ⟨hpt, _, hnames⟩ := construct_shape rx op' name d own hc
   exact creation_fails_iff_spec rx op name own _ (construct_ownValid rx op' name d own hc)
-    (fun h hm => supers_good hinv tail name hm) hsupp
-    (inherit_not_keyError rx op name own _ (fun hT => hnames (by rw [← hpt]; exact hT))) hcos
+    (fun h hm => supers_good hinv tail name hm) hsupp hcos
 
 /-- the declaration of a new class `cls` below existing classes is well-formed: not skipped by `step` -/
 def declareWF (w : World) (cls : Nat) (tail : List Nat) : Prop :=
@@ -666,53 +664,46 @@ example : ((run rxTrue failedAdd 0 World.empty []).1.params 1 0).isNone = true :
 example : ((run rxTrue failedAdd 0 World.empty []).1.resolve 1 0).map (·.cfg .default) =
     some (some (.atom (.int 5))) := by decide
 
-/-! ## `names` of a dict-declared Selector: a slot that is *not* inherited -/
+/-! ## `names` of a dict-declared Selector is inherited together with `objects` -/
 
-/-- every slot, `names` included, takes the value of the declarative resolver -/
-def names_inherited_full : Prop :=
-  ∀ (rx : String → String → Bool) (op name : Nat) (own : Param) (supers : List (Option Param)),
-    (inherit rx op name own supers).outcome.reached = true → own.ptype = .selector →
-    (inherit rx op name own supers).param.cfg .names = expected own supers .names
-
-/-- What the code does: `names` is whatever the declaration's own constructor set — `{}` when
-`objects` is not given, even though `objects` itself is then inherited. -/
-theorem names_from_own_declaration (rx : String → String → Bool) (op name : Nat) (own : Param)
+/-- `names` resolves like every other slot: the declaration's own mapping when `objects` is given
+as a dict (`{}` when given as a list), else what the nearest class of the MRO holds, else `{}`
+(since /repo 4c8b6fe; before, `Selector.__init__` always set `names` and it was never inherited). -/
+theorem names_inherited_with_objects (rx : String → String → Bool) (op name : Nat) (own : Param)
     (supers : List (Option Param))
     (hr : (inherit rx op name own supers).outcome.reached = true)
-    (hT : own.ptype = .selector) (hown : (own.slots .names).isSome = true) :
-    (inherit rx op name own supers).param.cfg .names = own.cfg .names :=
-  held_names_own rx op name own supers hr hT hown
+    (hT : own.ptype = .selector) :
+    (inherit rx op name own supers).param.cfg .names =
+      some (match own.slots .names with
+            | some v => v.v
+            | none => match nearest supers .names with
+              | some v => v.v
+              | none => .dict []) := by
+  rw [held_names_eq_expected rx op name own supers hr hT]
+  unfold expected specStatic chosen ownSpecified
+  rw [hT]
+  cases own.slots .names with
+  | some v => rfl
+  | none =>
+    cases nearest supers .names with
+    | some v => rfl
+    | none => rfl
 
 /-- `A: x = Selector(objects={'a': 1, 'b': 2})` -/
 def selA : Decl := mkDecl .selector [(.objects, ⟨.obj 1, .dict [("a", .int 1), ("b", .int 2)]⟩)]
 /-- `B(A): x = Selector(default=2)` -/
 def selB : Decl := mkDecl .selector [(.default, intV 2)]
+/-- `C(B): x = Selector(objects=[7, 8])` -/
+def selC : Decl := mkDecl .selector [(.objects, ⟨.obj 2, .list [.int 7, .int 8]⟩)]
 
-def witnessNames : List Op := [.declare 0 [0] [(0, selA)], .declare 1 [1, 0] [(0, selB)]]
+def namesChain : List Op :=
+  [.declare 0 [0] [(0, selA)], .declare 1 [1, 0] [(0, selB)], .declare 2 [2, 1, 0] [(0, selC)]]
 
-/-- B inherits the objects `[1, 2]` but holds `names = {}` -/
-example : ((run rxTrue witnessNames 0 World.empty []).1.params 1 0).map (fun p => (p.cfg .objects, p.cfg .names)) =
-    some (some (.list [.int 1, .int 2]), some (.dict [])) := by decide
-
-/-- B's own (unbound) Parameter, as its constructor leaves it -/
-def witnessOwnB : Param :=
-  match construct rxTrue 1 0 selB with
-  | .ok p => p
-  | .error _ => { ptype := .parameter, slots := fun _ => none, instantiate := false }
-
-/-- what class A holds -/
-def witnessHeldA : Option Param := (run rxTrue [.declare 0 [0] [(0, selA)]] 0 World.empty []).1.params 0 0
-
-theorem names_inherited_refuted : ¬ names_inherited_full := by
-  intro h
-  have h1 := h rxTrue 1 0 witnessOwnB [witnessHeldA] (by decide) (by decide)
-  have h2 : ¬ ((inherit rxTrue 1 0 witnessOwnB [witnessHeldA]).param.cfg .names =
-      expected witnessOwnB [witnessHeldA] .names) := by decide
-  exact h2 h1
-
-end ParamVerif.Inherit
-
-namespace ParamVerif.Inherit
+/-- B inherits the objects `[1, 2]` and their names; C gives its own list and has no names -/
+example : ((run rxTrue namesChain 0 World.empty []).1.params 1 0).map (fun p => (p.cfg .objects, p.cfg .names)) =
+    some (some (.list [.int 1, .int 2]), some (.dict [("a", .int 1), ("b", .int 2)])) := by decide
+example : ((run rxTrue namesChain 0 World.empty []).1.params 2 0).map (fun p => (p.cfg .objects, p.cfg .names)) =
+    some (some (.list [.int 7, .int 8]), some (.dict [])) := by decide
 
 /-! ## "Class creation, like `add_parameter`, …" -/
 
